@@ -652,3 +652,12 @@ MUTANTS += [
 #define BINSON_STATE_IN_OBJECT              (0x0030U)''')],
      'expect': {'C07': None, 'C06': None, 'C08': None, 'C02': None, 'C16': None, 'C01': None, 'C12': None}},
 ]
+
+MUTANTS += [
+    # the separator states of the text callbacks renumbered (0..5 -> 0x10..0x15): internal, no behaviour change
+    {'name': 'silent_pstate_renumbered', 'edits': [
+        (P, 'uint8_t pstate = 0x00;', 'uint8_t pstate = 0x10;'),
+        (P, 'ctx.pstate = 0;', 'ctx.pstate = 0x10;'),
+    ],
+     'expect': {'C14': None}, 'sed': [('\\*pstate == 0x0([0-5])', '*pstate == 0x1\\1'), ('\\*pstate = 0x0([0-5])', '*pstate = 0x1\\1')]},
+]
